@@ -342,14 +342,62 @@ func c05Fingerprint() *explore.Scenario {
 	}
 }
 
+// c05Remarshal: the padding decision belongs to the hello that goes out, not to the one that was built
+// first. The hello is built under one server name (padded, or too short / too long to be), the name is
+// then changed with SetSNI, and Handshake marshals again: the padding of the hello on the wire must
+// follow the policy for ITS unpadded length.
+func c05Remarshal() *explore.Scenario {
+	ids := paddedIDs()
+	firstLens := []int{1, 60, 120, 180, 253}
+	return &explore.Scenario{
+		Name: "padded-parrots-rebuilt-after-SetSNI",
+		Run: func(x *explore.X) (r explore.Result) {
+			n := ids[x.Choose("id", len(ids))]
+			l1 := firstLens[x.Choose("first-snilen", len(firstLens))]
+			l2 := 1 + x.Choose("second-snilen", 253)
+			what := fmt.Sprintf("%s built with a %d-byte name, SetSNI(%d-byte name), Handshake", n.Name, l1, l2)
+			stream, _, perr, pm := firstFlight(sniConfig(l1), n.ID, func(u *tls.UConn) error {
+				if err := u.BuildHandshakeState(); err != nil {
+					return err
+				}
+				u.SetSNI(nameOfLen(l2))
+				return nil
+			})
+			if pm != "" {
+				r.Violate("C05|remarshal|panic", "%s: %s", what, pm)
+				return
+			}
+			msg, _, err := wire.FirstFlightHello(stream)
+			if err != nil {
+				r.Obs = "no-hello:" + errClass(perr)
+				return
+			}
+			h, err := wire.ParseClientHello(msg)
+			if err != nil {
+				r.Violate("C05|remarshal|unparsable|"+truncStr(errClass(err), 60), "%s: the hello does not parse: %v", what, err)
+				return
+			}
+			if e := h.Find(0); e == nil || len(e.Body) != 5+l2 {
+				r.Obs = "sni-not-changed" // not this property's subject (C01)
+				return
+			}
+			u := paddingOracle(&r, "remarshal", what, h)
+			r.Nontrivial = true
+			r.Class = fmt.Sprintf("%s|%d|%d", n.Name, l1, l2)
+			r.Obs = fmt.Sprintf("u<256=%v|u>511=%v|viol=%d", u < 256, u > 511, len(r.Viol))
+			return
+		},
+	}
+}
+
 func c05Scenarios(thorough bool) []*explore.Scenario {
-	return []*explore.Scenario{c05Functions(), c05Hellos(), c05Fingerprint()}
+	return []*explore.Scenario{c05Functions(), c05Hellos(), c05Fingerprint(), c05Remarshal()}
 }
 
 func init() {
 	register(&Prop{ID: "C05", Level: "exploration", Variant: "A", Scenarios: c05Scenarios,
 		Run: func(c *explore.Check, thorough bool) {
-			c.Rule = "BoringPaddingStyle on every n in [0,70000]; AlwaysPadToLen(L)(n) on [0,1100]^2; every ID whose spec has BoringSSL-style padding x every SNI length 0..255 x 4 variants (plain; extra extension after padding; extra extension before padding; non-empty PSK after padding); fingerprint of every padded capture x SNI length 1..255 x 4 flag sets re-applied with a different name of the same length. non-trivial = hello emitted; distinct = (id, variant, unpadded length)"
+			c.Rule = "BoringPaddingStyle on every n in [0,70000]; AlwaysPadToLen(L)(n) on [0,1100]^2; every ID whose spec has BoringSSL-style padding x every SNI length 0..255 x 4 variants (plain; extra extension after padding; extra extension before padding; non-empty PSK after padding); fingerprint of every padded capture x SNI length 1..255 x 4 flag sets re-applied with a different name of the same length; every such ID built under a name of {1, 60, 120, 180, 253} bytes, renamed with SetSNI to every length 1..253 and marshalled again by Handshake: the padding on the wire follows the policy for the final hello. non-trivial = hello emitted; distinct = (id, variant, unpadded length)"
 			c.Assumptions = []string{"unpadded length = handshake message length (incl. 4-byte header) minus the padding extension, as BoringSSL measures it", "reference padding rule written from the property statement"}
 			runAll(c, c05Scenarios(thorough), 0)
 			for _, z := range []string{"zone_low", "zone_pad", "zone_high"} {
